@@ -211,6 +211,15 @@ def instances_for(name, schema, rng, tier, combos=2):
         if m is not None:
             out.append(("viol:" + kw.split(":")[0], m, [("/".join(map(str, path)), kw)]))
             muts.append((path, kw, node))
+        if kw == "multipleOf" and m is not None:
+            # also where binary floating point is coarse: a relative tolerance or a float remainder misjudges these
+            for big in (100000000.05, 123456789.37, 4000000.25):
+                out.append(("viol:multipleOf", _set(copy.deepcopy(full), path, big), [("/".join(map(str, path)), kw)]))
+        if kw == "type" and node.get("type") == "array":
+            # a bare string where a list of strings belongs (a string is a sequence of strings in Python, not in JSON)
+            cur = _get(full, path)
+            if isinstance(cur, list) and cur and isinstance(cur[0], str):
+                out.append(("viol:type", _set(copy.deepcopy(full), path, cur[0]), [("/".join(map(str, path)), kw)]))
         if kw == "type" and node.get("type") == "integer":
             # draft 4: an integral float is not an integer (later drafts accept it)
             cur = _get(full, path)
